@@ -15,7 +15,7 @@ RULE = (
     "handler configurations (0-4 handlers over Write / Change / Read, plain or coroutine functions (coroutines also as a functools.wraps-decorated async wrapper around a plain function; one function on two event kinds), vetoing or not - also a "
     "coroutine that sets prevent_default, which must have no effect -, attached to one or both elements of a vector, declared on a "
     "base or a derived driver class) x element kind (Text, Number, Switch, Light, BLOB) x vector enabled or not x 1 or 2 instances, each of "
-    "the derived or of the base class (the classes share the property definitions) x op sequences (client newXXXVector through the Router, set_value(), direct assignment, reads; values from a "
+    "the derived or of the base class (the classes share the property definitions) x op sequences (client newXXXVector through the Router - without a time stamp or with one of two constant ones -, set_value(), direct assignment, reads; values from a "
     "two-value domain - three for Text: the empty text is a value - so that changing and unchanged writes both occur). Handlers are closures appending (handler, instance, event "
     "type, element, payload, element value now, #publications now, in-task?) to a trace; a recording client counts publications. "
     "Oracle (trace vs analytic expectation): each Write handler of the element exactly once with the requested value, plain ones "
@@ -209,7 +209,9 @@ def check_contract(case):
                     wire = WIRE[kind][op["val"] % len(WIRE[kind])]
                     new = DOMAIN[kind][op["val"] % len(WIRE[kind])]
                     part = getattr(one_parts, f"One{kind}")(name=f"E{e}", value=wire)
-                    msg = getattr(M, f"New{kind}Vector")(device=f"DEV{inst}", name="V", children=(part,))
+                    # (libindi clients stamp with one-second resolution, firmware without a clock with a constant)
+                    stamp = {0: {}, 1: {"timestamp": "2026-10-03T21:15:07"}, 2: {"timestamp": "1970-01-01T00:00:00"}}[op.get("stamp", 0)]
+                    msg = getattr(M, f"New{kind}Vector")(device=f"DEV{inst}", name="V", children=(part,), **stamp)
                     rig.run_sync(lambda: rig.router.process_message(msg, sender=None))
                 elif t == "set_value":
                     new = py_value(kind, op["val"])
@@ -517,7 +519,7 @@ handler_st = st.fixed_dictionaries(
     }
 )
 op_st = st.fixed_dictionaries(
-    {"op": st.sampled_from(["client", "client", "set_value", "assign", "read"]), "inst": st.integers(0, 1), "e": st.integers(0, 1), "val": st.integers(0, 3)}
+    {"op": st.sampled_from(["client", "client", "set_value", "assign", "read"]), "inst": st.integers(0, 1), "e": st.integers(0, 1), "val": st.integers(0, 3), "stamp": st.sampled_from([0, 0, 1, 1, 2])}
 )
 
 
